@@ -195,8 +195,15 @@ type wrappedError struct{ inner error }
 func (e *wrappedError) Error() string { return "wrapped: " + e.inner.Error() }
 func (e *wrappedError) Unwrap() error { return e.inner }
 
+// opaqueError is an error whose dynamic type is not comparable (it holds a
+// slice): using it as a map key or switch operand panics, == against another
+// type is simply false.
+type opaqueError struct{ detail []string }
+
+func (e opaqueError) Error() string { return "injected opaque reader fault " + e.detail[0] }
+
 // ErrKinds is the number of injected error kinds.
-const ErrKinds = 5
+const ErrKinds = 6
 
 // MakeErr returns (error to inject, kind name).
 func MakeErr(kind int) (error, string) {
@@ -209,6 +216,8 @@ func MakeErr(kind int) (error, string) {
 		return io.ErrUnexpectedEOF, "io.ErrUnexpectedEOF"
 	case 3:
 		return io.ErrClosedPipe, "io.ErrClosedPipe"
+	case 4:
+		return opaqueError{[]string{"x"}}, "non-comparable-type"
 	default:
 		return errDeadline, "deadline"
 	}
